@@ -46,8 +46,15 @@ fn gen_recording_with(rng: &mut Rng, rate: u32, ntx: usize, last: Option<(u8, u8
     line.amplitude = 2000.0 + rng.unit() * 20000.0;
     line.dc = (rng.unit() - 0.5) * 500.0;
     line.noise_rel = if rng.chance(1, 2) { 0.0 } else { 0.03 };
-    let mut a = Audio::new(line);
     let mut label = format!("ntx{}", ntx);
+    // one undirected recording in six is played 2.5..4.5 % fast or slow: beyond the receiver's default timing
+    // tolerance, so what the library decodes depends on the configured tolerance — samedec must print exactly
+    // what the library decodes WITH THE OPTIONS samedec was given
+    if last.is_none() && rng.chance(1, 6) {
+        line.baud_err = (0.025 + rng.unit() * 0.02) * if rng.chance(1, 2) { 1.0 } else { -1.0 };
+        label.push_str(&format!(".speed{:+.3}", line.baud_err));
+    }
+    let mut a = Audio::new(line);
     a.silence(0.2 + rng.unit() * 0.5, rng);
     for t in 0..ntx {
         let kind = rng.below(5);
